@@ -1550,7 +1550,7 @@ class NMFUError(Exception):
         for i in range(column):
             if i == column - 1:
                 marker += "^"
-            elif ProgramData.get_source_line(line)[i] == "\t":
+            elif i < len(ProgramData.get_source_line(line) or "") and ProgramData.get_source_line(line)[i] == "\t":
                 marker += "\t"
             else:
                 marker += " "
